@@ -276,6 +276,8 @@ def gen(g, rng):
 
 
 def run(ctx):
+    from props import sites
+    sites.report(ctx)   # regenerated site inventory vs the modelled sites (diagnosis of a broken obligation; DESIGN §12)
     g = progs.G(ctx.rng)
     rng = ctx.rng
     n = ctx.n(2500, 60000)
